@@ -40,8 +40,13 @@ def run_case(ctx, d):
     stride = tuple(d["stride"]) if isinstance(d["stride"], list) else d["stride"]
     v = d["v"]
     bs = d["bs"]
-    expl = Occlusion(model, batch_size=bs, patch_size=patch, patch_stride=stride, occlusion_value=float(v))
-    out = expl(x, y).numpy() if d.get("via_call", True) else expl.explain(x, y).numpy()
+    def impl():
+        expl = Occlusion(model, batch_size=bs, patch_size=patch, patch_stride=stride, occlusion_value=float(v))
+        return expl(x, y).numpy()
+    ok, out = ctx.impl_call(d, impl)
+    if not ok:
+        ctx.case(d, False)
+        return
     g = geom_json(d["kind"], shape, patch, stride)
     r = ctx.driver.call({"op": "occl", "geom": g, "polys": model.json(), "v": enc(v), "bs": bs,
                          "xs": enc(x.reshape(n, -1)), "ys": enc(y)})
